@@ -497,11 +497,15 @@ Section Sem.
   Definition items (v : val) : option (list val) :=
     match v with VSeq 0 l | VSeq 1 l => Some l | _ => None end.
   (* **d: a dict whose keys are strings *)
+  Definition dict_item (x : val) : option (nat * val) :=
+    match x with
+    | VSeq 1 [a; v] => match shape a with SStr k => Some (k, v) | _ => None end
+    | _ => None
+    end.
   Fixpoint dict_items (l : list val) : option (list (nat * val)) :=
     match l with
     | [] => Some []
-    | VSeq 1 [VStr k; v] :: r => match dict_items r with Some r' => Some ((k, v) :: r') | None => None end
-    | _ => None
+    | x :: r => match dict_item x, dict_items r with Some kv, Some r' => Some (kv :: r') | _, _ => None end
     end.
   Definition unpack_dict (v : val) : option (list (nat * val)) :=
     match v with VSeq 2 l => dict_items l | _ => None end.
@@ -554,10 +558,13 @@ Section Sem.
   Definition key_part (v : val) : option kpart :=
     match v with
     | VPrim PCode => Some KC
-    | VTy t => Some (KP t)
-    | VSeq 1 [VStr k; VTy t] => Some (KK (Some k) t)
-    | VSeq 1 [VNone; VTy t] => Some (KK None t)
-    | _ => None
+    | VPrim _ | VClos _ _ _ => None
+    | _ => match shape v with
+           | STy t => Some (KP t)
+           | SSeq 1 [SStr k; STy t] => Some (KK (Some k) t)
+           | SSeq 1 [SNone; STy t] => Some (KK None t)
+           | _ => None
+           end
     end.
   Fixpoint key_of (l : list val) : option (list kpart) :=
     match l with
